@@ -10,6 +10,7 @@ All theorems hold for every configuration (acks ≠ None is built in: every atte
 transport error) and every reachable state / accepted event, i.e. every finite event sequence.
 -/
 import KafkaVerif.Lemmas.WriterCompl
+import KafkaVerif.Lemmas.WriterMsgs
 import KafkaVerif.Gen.WriterConsts
 
 namespace KV.C01
@@ -248,6 +249,42 @@ theorem retry_matches_source (cfg : Cfg) (b k : Nat) (code : Code) (temp trans :
   · subst h0; simp
   · by_cases hr : cfg.retriable code = true <;> by_cases hk : k + 1 < cfg.maxAttempts
     all_goals (rw [hcls] at hr; cases temp <;> cases trans <;> simp_all)
+
+theorem nodup_map_msg_inj (l : List BMsg) (h : (l.map (·.msg)).Nodup) :
+    ∀ m ∈ l, ∀ m' ∈ l, m.msg = m'.msg → m = m' := by
+  induction l with
+  | nil => intro m hm; cases hm
+  | cons a t ih =>
+    simp only [List.map_cons, List.nodup_cons] at h
+    obtain ⟨hnot, ht⟩ := h
+    intro m hm m' hm' e
+    rcases List.mem_cons.mp hm with h1 | h1 <;> rcases List.mem_cons.mp hm' with h2 | h2
+    · rw [h1, h2]
+    · exact absurd (List.mem_map.mpr ⟨m', h2, by rw [← e, h1]⟩) hnot
+    · exact absurd (List.mem_map.mpr ⟨m, h1, by rw [e, h2]⟩) hnot
+    · exact ih ht m h1 m' h2 e
+
+/-- **message_in_exactly_one_batch** — an accepted message (an index of a call that was appended) sits in exactly one
+batch, the one `place` names, and exactly once in it.  With `completion_once` (one Completion call per completed
+batch, with the batch's final error) this is "the Completion callback receives every accepted message exactly once
+with that same outcome"; with `dups_only_after_lost_ack` it bounds the copies of the message in the log. -/
+theorem message_in_exactly_one_batch (cfg : Cfg) (s : State) (hr : Reachable cfg s) (c i : Nat) (C : Call)
+    (hC : s.calls c = some C) (b : Nat) (hp : C.place i = some b) :
+    (∃ B m, s.batches b = some B ∧ m ∈ B.msgs ∧ m.msg = (c, i) ∧ ∀ m' ∈ B.msgs, m'.msg = (c, i) → m' = m) ∧
+    (∀ b' B' m, s.batches b' = some B' → m ∈ B'.msgs → m.msg = (c, i) → b' = b) := by
+  have hP := invPlace cfg s hr
+  have hM := invMsgs cfg s hr
+  constructor
+  · obtain ⟨B, hB, ⟨m, hm, hmm⟩, -⟩ := hP.placed c C hC i b hp
+    refine ⟨B, m, hB, hm, hmm, ?_⟩
+    intro m' hm' hmm'
+    exact nodup_map_msg_inj B.msgs (hM.nodup b B hB) m' hm' m hm (hmm'.trans hmm.symm)
+  · intro b' B' m hB' hm hmm
+    obtain ⟨X, hX, -, hpl⟩ := hP.batchTP b' B' hB' m hm
+    rw [hmm] at hX hpl
+    rw [hC] at hX; cases hX
+    simp only at hpl
+    rw [hp] at hpl; cases hpl; rfl
 
 /-- **completion_before_done** — `complete` (closing batch.done, which lets WriteMessages return) is enabled only
 after the Completion callback ran when one is configured, and with the same error. -/
